@@ -1,4 +1,5 @@
 import DarkluaModel.C17.Lemmas
+import DarkluaModel.C17.Whole
 /-!
 # C17 — removal and injection rules change exactly what they name: property theorems
 
@@ -668,5 +669,72 @@ example : defects (.injectGlobalValue "DEBUG" .true)
     = [] := by rfl
 example : defects (.injectGlobalValue "DEBUG" .true) (.mk [.assign [.var "DEBUG"] [.nil]] none) = ["global-write"] := by rfl
 end whole
+
+/-! ## whole-rule theorem through the stage-3 lifting theorem (`Shared/VisitorSoundHeap.lean`)
+
+`inject_refines_whole`: for every program that never declares or assigns the injected name (decidable
+`NoRefB [.wat ident] b`; closures, loops, any other shadowing allowed), a literal value, every number
+system, oracle and call level — the output of the rule's own `apply` has the same observable outcome
+as the input, started in a state where the global is preset to the value. Side condition `hsame`: on
+this program the rule's run coincides with the run of the identifier-only processor
+(`Whole.processorVar`), i.e. no unshadowed `_G.NAME` / `_G["NAME"]` is rewritten — those shapes are
+outside stage 3: the original spends `indexVal` fuel and reads a table that no context fact describes.
+
+NOT obtained: `assert_refines_whole`, `profiling_refines_whole`. Stage 3 relates runs with IDENTICAL
+timeouts for every fuel `k` and call level, and its context facts fix the VALUES of watched globals.
+Removing a call changes fuel use (`assert(e)` times out at `k = 0` and on the last call level, `e`
+does not; `debug.profilebegin()` spends `indexVal` fuel), and "the value of `assert` hands its
+arguments back when called" is a property of the abstract call handler, not of a global's value. An
+up-to-timeout variant of stage 3 with facts about calling a watched global would be needed; the local
+theorems above stay the statement for these two rules, and for every program that shadows a name. -/
+
+open Whole in
+theorem inject_refines_whole (ident : String) (value : Expr) (hl : isLit value = true) (b : Block)
+    (hb : NoRefB [.wat ident] b)
+    (hsame : InjectValue.apply ident value b = applyVar ident value b)
+    {N : NumOps} (ρ : ExtOracle N) (n : Nat) (σ : State N)
+    (hd : σ.getGlobal ident = litVal N value) (hc : σ.cells = []) (hcl : σ.closures = []) :
+    observe (runChunk ρ n (InjectValue.apply ident value b) σ) = observe (runChunk ρ n b σ) := by
+  rw [hsame]
+  exact applyVar_refines ident value hl b hb ρ n σ hd hc hcl
+
+open Whole in
+/-- the same with the modified environment installed on the initial state of a run: the global is preset -/
+theorem inject_refines_whole_preset (ident : String) (value : Expr) (hl : isLit value = true) (b : Block)
+    (hb : NoRefB [.wat ident] b)
+    (hsame : InjectValue.apply ident value b = applyVar ident value b)
+    {N : NumOps} (ρ : ExtOracle N) (n : Nat) (externs : List String) :
+    observe (runChunk ρ n (InjectValue.apply ident value b) ((initState externs).setGlobal ident (litVal N value)))
+      = observe (runChunk ρ n b ((initState externs).setGlobal ident (litVal N value))) :=
+  inject_refines_whole ident value hl b hb hsame ρ n _
+    (by simp [State.getGlobal, State.setGlobal, lookupAssoc_setAssoc_self]) rfl rfl
+
+section wholeExamples
+open Whole
+/-- `local function f(x) if DEBUG then emit(x, DEBUG) end end; f(1); emit(DEBUG.y); do local other = DEBUG end` -/
+private def sample : Block :=
+  .mk [.localFn .loc "f" (.mk [.mk "x" none] false none none [] []
+         (.mk [.ifs [(.var "DEBUG", .mk [.callStmt (.call (.var "emit") none .tuple [.var "x", .var "DEBUG"])] none)] none] none)),
+       .callStmt (.call (.var "f") none .tuple [.num 1]),
+       .callStmt (.call (.var "emit") none .tuple [.field (.var "DEBUG") "y"]),
+       .doBlock (.mk [.localAssign .loc [.mk "other" none] [.var "DEBUG"]] none)] none
+
+-- non-vacuity: the hypotheses hold for the sample and the rule really rewrites it (expression and prefix position)
+example : isLit (.str [100]) = true := rfl
+example : NoRefB [.wat "DEBUG"] sample := NoRefB.ofBool rfl
+example : InjectValue.apply "DEBUG" (.str [100]) sample = applyVar "DEBUG" (.str [100]) sample := by rfl
+example : InjectValue.apply "DEBUG" (.str [100]) sample =
+    .mk [.localFn .loc "f" (.mk [.mk "x" none] false none none [] []
+           (.mk [.ifs [(.str [100], .mk [.callStmt (.call (.var "emit") none .tuple [.var "x", .str [100]])] none)] none] none)),
+         .callStmt (.call (.var "f") none .tuple [.num 1]),
+         .callStmt (.call (.var "emit") none .tuple [.field (.paren (.str [100])) "y"]),
+         .doBlock (.mk [.localAssign .loc [.mk "other" none] [.str [100]]] none)] none := by rfl
+-- a program that declares the name is outside the theorem (the local theorems cover it)
+example : ¬ NoRefB [.wat "DEBUG"] (.mk [.localAssign .loc [.mk "DEBUG" none] [.nil]] none) := by
+  intro h
+  have := h (.wat "DEBUG") (by simp)
+  revert this
+  decide
+end wholeExamples
 
 end DarkluaModel.C17
